@@ -8,10 +8,16 @@ Spec: Spec/Ordered.lean (one duplicate-free list of ids per key; `insertAfter`, 
 `Change.holds` = how a listing may change across one operation).
 
 `R A t` (Proofs/Chain.lean): the table `t` represents the abstract lists `A`.
-`ChInv S d` (Proofs/V2Rep.lean): `R S.kids d.pl ∧ R S.ents d.pe`, every entity row makes the
-schema's delete trigger fire, ids within the AUTOINCREMENT counters.
-`ordStep S d op` (Proofs/V2Abs.lean): the Spec.Ordered lists after `op`, computed with the list
-operations of the Spec only, driven by what the Model answered (success, new id).
+`Ord` (Proofs/V2Abs.lean): the Spec state — sibling lists per parent, entry lists per playlist, every entry
+with its payload (entity id, track id, database uuid).
+`ordNext S f op res`: the Spec lists after `op`, computed with the list operations of Spec/Ordered from the
+Spec state itself (`S`, and the Spec forest `f` of C07: who is whose parent, who is live, the subtree of a
+crate), the arguments of the call and its answer `res` (returned / threw, the new id) — nothing else of the
+Model is read; in particular WHICH entry a removal removes is looked up in the Spec's own listing.
+`specRunO`: forest by `judgeF` (C07) and lists by `ordNext`, along a history, from the Model's answers only.
+`ChInv S d` (Proofs/V2Rep.lean): `R S.kids d.pl ∧ R S.entIds d.pe`, every row carries the payload the Spec
+recorded for it, no (list, database, track) triple twice, every entity row makes the schema's delete trigger
+fire, ids within the AUTOINCREMENT counters.
 
 Known finding (findings/C09.json, table level only): an entity row with trackId ≤ 0 is not
 re-linked when it is removed, because the schema's own trigger is declared `WHEN OLD.trackId > 0`.
@@ -20,8 +26,7 @@ The history theorems therefore carry the decidable hypothesis `ops.all okOp`
 where add_track demands an existing track — is `okOp`); the unrestricted statement is refuted by
 `C09_history_counterexample`.
 -/
-import Proofs.V2Change
-import Proofs.V2WfRaw
+import Proofs.V2Run
 
 namespace EngineModel.Properties.C09
 open EngineModel EngineModel.Db.Chain EngineModel.Db.V2 EngineModel.Spec
@@ -100,130 +105,137 @@ theorem C09_clear_simulates {A : Int → List Int} {t : Table α} (h : R A t) (f
 
 /-! ### the 2.x crate API and the table-level entity API: per-operation simulation and history induction -/
 
-/-- Per-operation simulation: every operation of the Model keeps the tables a representation of the
-Spec.Ordered lists after the corresponding list operation. -/
+/-- Per-operation simulation: every operation of the Model keeps the tables a representation of the Spec lists
+after the corresponding Spec operation (`absF d` is the Spec forest by C07's refinement). -/
 theorem C09_step_simulates {S : Ord} {d : Db} (h : ChInv S d) (op : Op) (hok : okOp op = true) :
-    ChInv (ordStep S d op) (step d op).1 :=
+    ChInv (ordNext S (absF d) op (step d op).2) (step d op).1 :=
   chInv_step h op hok
 
-/- Full statement (false, see `C09_history_counterexample`):
-   ∀ ops n, ChInv (ordRun Db.empty Ord.empty (ops.take n)) (run Db.empty (ops.take n)). -/
-/-- History induction: after every prefix of every history from the empty database both tables
-represent the Spec.Ordered lists. -/
+/- Full statement (false, see `C09_history_counterexample`): the same for all `ops`. -/
+/-- History induction: after every prefix of every history from the empty database the Spec run (driven by the
+Model's answers only) has not objected, its forest is the abstraction of the Playlist table, and both tables
+represent its lists. -/
 theorem C09_history_represented_partial (ops : List Op) (hok : ops.all okOp = true) (n : Nat) :
-    ChInv (ordRun Db.empty Ord.empty (ops.take n)) (run Db.empty (ops.take n)) := by
-  apply chInv_run chInv_empty
+    ∃ S, specRunO Db.empty Forest.empty Ord.empty (ops.take n) = some (absF (run Db.empty (ops.take n)), S) ∧
+      ChInv S (run Db.empty (ops.take n)) := by
+  apply chInv_hist
   rw [List.all_eq_true] at hok ⊢
   intro op hop
   exact hok op (List.mem_of_mem_take hop)
 
 /-- … hence the executable chain well-formedness (the predicate the tie evaluates on the real rows). -/
 theorem C09_history_wfChains_partial (ops : List Op) (hok : ops.all okOp = true) :
-    wfChains (run Db.empty ops) = true :=
-  wfChains_of_chInv (chInv_run chInv_empty ops hok)
+    wfChains (run Db.empty ops) = true := by
+  obtain ⟨S, _, h⟩ := chInv_hist ops hok
+  exact wfChains_of_chInv h
 
-/-- Every ordered listing of the Model equals the Spec.Ordered list: root_crates, children, the entity
-listing (entity ids in order, each with its track) and crate::tracks; no listing meets the missing-tail
-undefined behaviour; every listing is duplicate-free. -/
+/-- Every ordered listing of the Model equals the Spec list: root_crates, children, get_for_list (entity id,
+track id, database — exactly the Spec's entries with their payload, in order), track_ids, and crate::tracks
+(the entries of the own database); no listing meets the missing-tail undefined behaviour; every listing is
+duplicate-free. -/
 theorem C09_listings_equal_spec {S : Ord} {d : Db} (h : ChInv S d) :
     qRoots d = .ok (S.kids 0) ∧ (∀ c, qChildren d c = .ok (S.kids c)) ∧ (∀ k, (S.kids k).Nodup) ∧
-    (∀ l, ∃ rows, qEntities d l = .ok rows ∧ rows.map (·.1) = S.ents l ∧ qTracks d l = .ok (rows.map (·.2.1)) ∧
-      (∀ p ∈ rows, ∃ r ∈ d.pe, r.id = p.1 ∧ r.val.track = p.2.1 ∧ r.val.uuid = p.2.2 ∧ r.key = l)) ∧
-    (∀ l, (S.ents l).Nodup) := by
-  refine ⟨walkIds_eq h.rk 0, fun c => walkIds_eq h.rk c, h.rk.nodup, ?_, h.re.nodup⟩
-  intro l
-  obtain ⟨rows, hw, hm, hr⟩ := walkBack_spec h.re l
-  refine ⟨rows.map (fun r => (r.id, r.val.track, r.val.uuid)), ?_, ?_, ?_, ?_⟩
-  · simp [qEntities, hw, Res.bind]
-  · rw [List.map_map]; exact hm
-  · simp [qTracks, hw, Res.bind, List.map_map, Function.comp_def]
-  · intro p hp
-    obtain ⟨r, hrm, rfl⟩ := List.mem_map.mp hp
-    exact ⟨r, (hr r hrm).1, rfl, rfl, rfl, (hr r hrm).2⟩
+    (∀ l, qEntities d l = .ok ((S.ents l).map fun p => (p.1, p.2.track, p.2.uuid)) ∧
+          qTrackIds d l = .ok ((S.ents l).map (·.2.track)) ∧
+          qTracks d l = .ok (((S.ents l).filter (·.2.uuid == 0)).map (·.2.track))) ∧
+    (∀ l, (S.entIds l).Nodup) :=
+  ⟨walkIds_eq h.rk 0, fun c => walkIds_eq h.rk c, h.rk.nodup,
+   fun l => ⟨qEntities_eq h l, qTrackIds_eq h l, qTracks_eq h l⟩, h.re.nodup⟩
 
 theorem C09_history_listings_equal_spec_partial (ops : List Op) (hok : ops.all okOp = true) :
-    let d := run Db.empty ops
-    let S := ordRun Db.empty Ord.empty ops
-    qRoots d = .ok (S.kids 0) ∧ (∀ c, qChildren d c = .ok (S.kids c)) ∧
-    (∀ l, ∃ rows, qEntities d l = .ok rows ∧ rows.map (·.1) = S.ents l ∧ qTracks d l = .ok (rows.map (·.2.1))) := by
-  obtain ⟨h1, h2, _, h4, _⟩ := C09_listings_equal_spec (chInv_run chInv_empty ops hok)
-  refine ⟨h1, h2, fun l => ?_⟩
-  obtain ⟨rows, a, b, c, _⟩ := h4 l
-  exact ⟨rows, a, b, c⟩
+    ∃ S, specRunO Db.empty Forest.empty Ord.empty ops = some (absF (run Db.empty ops), S) ∧
+      qRoots (run Db.empty ops) = .ok (S.kids 0) ∧ (∀ c, qChildren (run Db.empty ops) c = .ok (S.kids c)) ∧
+      (∀ l, qEntities (run Db.empty ops) l = .ok ((S.ents l).map fun p => (p.1, p.2.track, p.2.uuid))) := by
+  obtain ⟨S, h0, h⟩ := chInv_hist ops hok
+  obtain ⟨h1, h2, _, h4, _⟩ := C09_listings_equal_spec h
+  exact ⟨S, h0, h1, h2, fun l => (h4 l).1⟩
 
-/-- Across one operation every sibling listing and every entry listing of the Spec.Ordered state changes
-exactly as the property prescribes (`Change.holds`): a crate created after a sibling sits immediately after
-it; a crate created without a position or moved to a new parent appears among its new siblings (the Model
-appends); a removal erases the one item and keeps the rest in order; every other listing is untouched. -/
+/-- Across one operation every sibling listing and every entry listing of the Spec state changes exactly as the
+property prescribes (`Change.holds`; the prescription `kidsChange` / `entsChange` is computed from the Spec state,
+the call and its result): a crate created after a sibling sits immediately after it; a crate created without a
+position or moved to a new parent is the LAST of its new siblings (the property allows any position); an entry
+added is the last of its list; a removal erases the one item and keeps the rest in order; every other listing is
+untouched. -/
 theorem C09_step_changes_as_prescribed {S : Ord} {d : Db} (h : ChInv S d) (op : Op) (k : Int) :
-    (kidsChange d op k).holds (S.kids k) ((ordStep S d op).kids k) = true ∧
-    (entsChange d op k).holds (S.ents k) ((ordStep S d op).ents k) = true :=
+    (kidsChange (absF d) op (step d op).2 k).holds (S.kids k) ((ordNext S (absF d) op (step d op).2).kids k) = true ∧
+    (entsChange S (absF d) op (step d op).2 k).holds (S.entIds k) ((ordNext S (absF d) op (step d op).2).entIds k) = true :=
   ⟨kids_change h op k, ents_change h op k⟩
 
-/-- The same on the Model's own listings (what the oracle of the tie checks on the real library's
-listings): for every reachable state and every further operation, the listing of every key before and
-after are related by the prescribed change, and the new one is duplicate-free. -/
+/-- The same on the Model's own listings (what the oracle of the tie checks on the real library's listings): for
+every reachable state and every further operation, the listing of every key before and after are related by the
+prescribed change, and the new one is duplicate-free. -/
 theorem C09_history_listings_change_as_prescribed_partial (ops : List Op) (hok : ops.all okOp = true)
     (op : Op) (hop : okOp op = true) (k : Int) :
-    let d := run Db.empty ops
-    ∃ old new, qChildren d k = .ok old ∧ qChildren (step d op).1 k = .ok new ∧
-      (kidsChange d op k).holds old new = true ∧ new.Nodup ∧
-    ∃ olde newe, (qEntities d k).bind (fun l => .ok (l.map (·.1))) = .ok olde ∧
-      (qEntities (step d op).1 k).bind (fun l => .ok (l.map (·.1))) = .ok newe ∧
-      (entsChange d op k).holds olde newe = true ∧ newe.Nodup := by
-  intro d
-  have hI := chInv_run chInv_empty ops hok
+    ∃ S, specRunO Db.empty Forest.empty Ord.empty ops = some (absF (run Db.empty ops), S) ∧
+    ∃ old new, qChildren (run Db.empty ops) k = .ok old ∧ qChildren (step (run Db.empty ops) op).1 k = .ok new ∧
+      (kidsChange (absF (run Db.empty ops)) op (step (run Db.empty ops) op).2 k).holds old new = true ∧ new.Nodup ∧
+    ∃ olde newe, (qEntities (run Db.empty ops) k).bind (fun l => .ok (l.map (·.1))) = .ok olde ∧
+      (qEntities (step (run Db.empty ops) op).1 k).bind (fun l => .ok (l.map (·.1))) = .ok newe ∧
+      (entsChange S (absF (run Db.empty ops)) op (step (run Db.empty ops) op).2 k).holds olde newe = true ∧ newe.Nodup := by
+  obtain ⟨S, h0, hI⟩ := chInv_hist ops hok
   have hI' := chInv_step hI op hop
   obtain ⟨_, a2, _, a4, _⟩ := C09_listings_equal_spec hI
   obtain ⟨_, b2, b3, b4, b5⟩ := C09_listings_equal_spec hI'
-  refine ⟨_, _, a2 k, b2 k, kids_change hI op k, b3 k, ?_⟩
-  obtain ⟨rows, r1, r2, _, _⟩ := a4 k
-  obtain ⟨rows', s1, s2, _, _⟩ := b4 k
-  refine ⟨_, _, ?_, ?_, ents_change hI op k, b5 k⟩
-  · show (qEntities (run Db.empty ops) k).bind _ = _
-    rw [r1]; simp [Res.bind, r2]
-  · show (qEntities (step (run Db.empty ops) op).1 k).bind _ = _
-    rw [s1]; simp [Res.bind, s2]
+  refine ⟨S, h0, _, _, a2 k, b2 k, kids_change hI op k, b3 k, S.entIds k, (ordStep S (run Db.empty ops) op).entIds k, ?_, ?_,
+    ents_change hI op k, b5 k⟩
+  · rw [(a4 k).1]; simp [Res.bind, Ord.entIds, List.map_map, Function.comp_def]
+  · rw [(b4 k).1]; simp [Res.bind, Ord.entIds, List.map_map, Function.comp_def]
+
+/-- The position, spelt out: a crate created without a position, and a crate moved to a new parent, is listed LAST
+among its new siblings (and the listing it leaves loses exactly it). -/
+theorem C09_new_or_moved_crate_is_last {S : Ord} {d : Db} (h : ChInv S d) :
+    (∀ n out, (step d (.createRoot n)).2 = .ok out →
+      ∃ i, out = some i ∧ qRoots (step d (.createRoot n)).1 = .ok (S.kids 0 ++ [i])) ∧
+    (∀ p n out, (step d (.createSub p n)).2 = .ok out →
+      ∃ i, out = some i ∧ qChildren (step d (.createSub p n)).1 p = .ok (S.kids p ++ [i])) ∧
+    (∀ c p out, (step d (.setParent c p)).2 = .ok out → (absF d).live c = true →
+      keyOf ((absF d).parentOf c) ≠ keyOf p →
+      qChildren (step d (.setParent c p)).1 (keyOf p) = .ok (S.kids (keyOf p) ++ [c]) ∧
+      qChildren (step d (.setParent c p)).1 (keyOf ((absF d).parentOf c)) = .ok ((S.kids (keyOf ((absF d).parentOf c))).erase c)) := by
+  refine ⟨?_, ?_, ?_⟩
+  · intro n out hres
+    have hI' := chInv_step h (.createRoot n) rfl
+    have hout := step_createRoot_ok hres
+    refine ⟨_, hout, ?_⟩
+    rw [(C09_listings_equal_spec hI').1]
+    simp only [ordStep, ordNext, hres, hout, ordOk, setKey_same]
+  · intro p n out hres
+    have hI' := chInv_step h (.createSub p n) rfl
+    have hout := step_createSub_ok hres
+    refine ⟨_, hout, ?_⟩
+    rw [(C09_listings_equal_spec hI').2.1 p]
+    simp only [ordStep, ordNext, hres, hout, ordOk, setKey_same]
+  · intro c p out hres hl hne
+    have hI' := chInv_step h (.setParent c p) rfl
+    have hcond : ((absF d).live c && keyOf ((absF d).parentOf c) != keyOf p) = true := by simp [hl, hne]
+    have hk : (ordStep S d (.setParent c p)).kids = moveKid S.kids (keyOf ((absF d).parentOf c)) (keyOf p) c := by
+      simp only [ordStep, ordNext, hres, ordOk, hcond, if_true]
+    constructor
+    · rw [(C09_listings_equal_spec hI').2.1 (keyOf p), hk]
+      simp only [moveKid, setKey_same, setKey_other _ _ (Ne.symm hne)]
+    · rw [(C09_listings_equal_spec hI').2.1 (keyOf ((absF d).parentOf c)), hk]
+      simp only [moveKid, setKey_other _ _ hne, setKey_same]
 
 /-- An entry's identity is (list, database uuid, track id): add_back treats as a duplicate only an entry of the
 same list with the same track id AND the same database uuid.  Whatever else the list holds — in particular
 an entry of ANOTHER database that happens to carry the same numeric track id — a new entry is appended at the
-end of the listing with the next AUTOINCREMENT id, for every uuid `u`. -/
+end of the listing with the next AUTOINCREMENT id and the payload given, for every uuid `u`.  (The hypothesis is on
+the Spec's own listing.) -/
 theorem C09_add_back_identity_includes_database {S : Ord} {d : Db} (h : ChInv S d) (l t u : Int) (f : Bool) (ht : 0 < t)
-    (hnew : peFind d l t u = none) :
+    (hnew : S.find l t u = none) :
     (step d (.peAddBack l t u f)).2 = .ok (some (d.peSeq + 1)) ∧
-    (ordStep S d (.peAddBack l t u f)).ents l = S.ents l ++ [d.peSeq + 1] ∧
-    ChInv (ordStep S d (.peAddBack l t u f)) (step d (.peAddBack l t u f)).1 ∧
-    ∃ rows, qEntities (step d (.peAddBack l t u f)).1 l = .ok rows ∧ rows.map (·.1) = S.ents l ++ [d.peSeq + 1] ∧
-      (d.peSeq + 1, t, u) ∈ rows := by
+    ChInv (ordNext S (absF d) (.peAddBack l t u f) (step d (.peAddBack l t u f)).2) (step d (.peAddBack l t u f)).1 ∧
+    qEntities (step d (.peAddBack l t u f)).1 l
+      = .ok ((S.ents l).map (fun p => (p.1, p.2.track, p.2.uuid)) ++ [(d.peSeq + 1, t, u)]) := by
+  have hnone := peFind_none_of_find h hnew
   have hstep : step d (.peAddBack l t u f) =
       ({ d with pe := appendBack d.pe (d.peSeq + 1) l ⟨t, u⟩, peSeq := d.peSeq + 1 }, .ok (some (d.peSeq + 1))) := by
-    simp [step, peAddBack, hnew]
-  have hord : (ordStep S d (.peAddBack l t u f)).ents l = S.ents l ++ [d.peSeq + 1] := by
-    rw [ordStep_ok hstep]; simp [ordOk, hnew]
+    simp [step, peAddBack, hnone]
   have hI' := chInv_step h (.peAddBack l t u f) (by simpa [okOp] using ht)
-  refine ⟨by rw [hstep], hord, hI', ?_⟩
-  obtain ⟨_, _, _, h4, _⟩ := C09_listings_equal_spec hI'
-  obtain ⟨rows, r1, r2, _, r4⟩ := h4 l
-  refine ⟨rows, r1, by rw [r2, hord], ?_⟩
-  have hm : d.peSeq + 1 ∈ rows.map (·.1) := by rw [r2, hord]; simp
-  obtain ⟨p, hp, e⟩ := List.mem_map.mp hm
-  obtain ⟨r, hr, e1, e2, e3, _⟩ := r4 p hp
-  -- the row with the new id is the appended one
-  rw [hstep] at hr
-  rcases mem_appendBack hr with ⟨r0, hr0, e4, _⟩ | ⟨_, e5⟩
-  · exfalso
-    have : d.peSeq + 1 ∈ ids d.pe := by
-      simp only [ids, List.mem_map]; exact ⟨r0, hr0, by rw [← e4, e1, e]⟩
-    have := h.peSeq _ this
-    omega
-  · have : p = (d.peSeq + 1, t, u) := by
-      rw [e5] at e2 e3
-      cases p with
-      | mk a b =>
-        cases b with
-        | mk b c => simp only at e e2 e3; rw [e, ← e2, ← e3]
-    rw [← this]; exact hp
+  refine ⟨by rw [hstep], hI', ?_⟩
+  rw [qEntities_eq hI' l]
+  simp only [ordStep, ordNext, hstep, ordOk, hnew, Option.isNone_none, if_true, setKeyE_same, List.map_append,
+    List.map_cons, List.map_nil]
 
 /-- The unrestricted history statement is false of the code: at table level an entry whose trackId is not
 positive is not re-linked when it is removed (the schema's trigger_before_delete_PlaylistEntity is declared
@@ -249,17 +261,20 @@ example : sampleOps.all okOp = true := by decide
 example : qRoots (run Db.empty sampleOps) = .ok [1, 2] := by decide
 example : qChildren (run Db.empty sampleOps) 1 = .ok [5, 3] := by decide
 example : qTracks (run Db.empty sampleOps) 1 = .ok [1] := by decide
-example : (ordRun Db.empty Ord.empty sampleOps).kids 1 = [5, 3] := by decide
+example : (specRunO Db.empty Forest.empty Ord.empty sampleOps).map (fun p => (p.2.kids 1, p.2.ents 1)) = some ([5, 3], [(2, ⟨1, 0⟩)]) := by decide
+example : okOp (.setParent 3 (some 1)) = true ∧
+    kidsChange (absF (run Db.empty (sampleOps.take 5))) (.setParent 3 (some 1)) (step (run Db.empty (sampleOps.take 5)) (.setParent 3 (some 1))).2 1
+      = Ordered.Change.appended 3 := by decide
+
 /-- two databases with colliding track ids in one list: [A:7, B:7, A:8, B:8]; re-adding B:7 returns entity 2;
-removing it leaves [A:7, A:8, B:8] -/
+removing it leaves [A:7, A:8, B:8]; crate::remove_track of the own track 7 removes A:7 and keeps B:7 -/
 def mixedOps : List Op := [.peAddBack 5 7 0 false, .peAddBack 5 7 1 false, .peAddBack 5 8 0 false, .peAddBack 5 8 1 true]
 example : mixedOps.all okOp = true := by decide
 example : qEntities (run Db.empty mixedOps) 5 = .ok [(1, 7, 0), (2, 7, 1), (3, 8, 0), (4, 8, 1)] := by decide
-example : peFind (run Db.empty (mixedOps.take 1)) 5 7 1 = none ∧ (peGet (run Db.empty (mixedOps.take 1)) 5 7).isSome = true := by decide
+example : (specRunO Db.empty Forest.empty Ord.empty (mixedOps.take 1)).map (fun p => p.2.find 5 7 1) = some none := by decide
 example : (step (run Db.empty mixedOps) (.peAddBack 5 7 1 false)).2 = .ok (some 2) := by decide
 example : qEntities (run Db.empty (mixedOps ++ [.peRemove 5 2])) 5 = .ok [(1, 7, 0), (3, 8, 0), (4, 8, 1)] := by decide
-
-example : okOp (.setParent 3 (some 1)) = true ∧ (kidsChange (run Db.empty (sampleOps.take 5)) (.setParent 3 (some 1)) 1)
-    = Ordered.Change.inserted 3 := by decide
+example : qEntities (run Db.empty (mixedOps ++ [.removeTrackFrom 5 7])) 5 = .ok [(2, 7, 1), (3, 8, 0), (4, 8, 1)] := by decide
+example : qTracks (run Db.empty mixedOps) 5 = .ok [7, 8] := by decide
 
 end EngineModel.Properties.C09
